@@ -95,6 +95,11 @@ func genC04Case(t *rapid.T) *StructCase {
 		m, _ := measureOf(kind, v)
 		return genSizeRule(t, m, "leaf") + mg.next(t)
 	}
+	if rapid.IntRange(0, 19).Draw(t, "mutualRecursion") == 11 {
+		// two named types that refer to each other, rules in their tags, no rule set on the call
+		root := rapid.SampledFrom([]string{"DirT", "DirT", "EntsT"}).Draw(t, "mutualRoot")
+		return &StructCase{Root: desc.Ptr(desc.Named(root)), Val: desc.V{E: []desc.V{genValueRT(t, lib.Types[root], 0, rapid.IntRange(2, 6).Draw(t, "mutualDepth"))}}}
+	}
 	if rapid.IntRange(0, 24).Draw(t, "payloadFirst") == 0 {
 		// a payload-sized collection of scalars under a marker, declared before marked sub-objects:
 		// whatever the walker counts or buffers per element, the sub-objects behind it are still reached
